@@ -21,7 +21,7 @@ from mc.checks import rules_common as R
 
 PROPERTY = "C08"
 LEVEL = "exploration"
-RULE = ("cases = every (expression, position, placement) triple over 56 ill-typed/partial/lazily failing transaction expressions x 9 positions x 3 placements, "
+RULE = ("cases = every (expression, position, placement) triple over 56 ill-typed/partial/lazily failing transaction expressions x 10 positions x 3 placements, "
         "and every (filter, kind, placement) triple over 14 view expressions x 3 kinds x 3 placements (thorough adds all ordered pairs of two bad "
         "rules); each case classifies 10 transactions (4 merchants for views) through 3 entry points. non-trivial = cases whose file the loader "
         "accepts and whose expression raises for at least one item; triples distinct by construction")
@@ -43,7 +43,7 @@ BAD = [
     # lazily failing: the expression itself evaluates (to a generator), consuming it fails
     '(r for r in amount)', '(r.nope for r in orders)', '(1 / description for r in orders)', '[x for x in (r.nope for r in orders)]',
 ]
-POSITIONS = ["match", "match-let-shadow", "let-unused", "let-used", "field", "tag", "transform", "transform-after", "variable"]
+POSITIONS = ["match", "match-let-shadow", "let-chain", "let-unused", "let-used", "field", "tag", "transform", "transform-after", "variable"]
 PLACEMENTS = ["first", "middle", "last"]
 
 VIEW_BAD = ['total > "x"', 'sum(by("month")) > 5', 'by("nope")', 'period("nope") > 1', 'max_val(1) > 0', 'avg("x") > 1', '"x" in total', 'tags > 1',
@@ -86,6 +86,9 @@ def gen_cases(tier):
         for k in VIEW_KINDS:
             for pl in PLACEMENTS:
                 yield {"kind": "views", "expr": e, "vkind": k, "placement": pl}
+    for b in range(len(CSV_BAD_ROWS)):
+        for pl in PLACEMENTS:
+            yield {"kind": "csvrules", "bad": b, "placement": pl}
 
 
 # ------------------------------------------------------------------------------------------------ rules files
@@ -105,6 +108,11 @@ def build(exprs, positions, placement, remove=False):
                 bad_rules.append({"name": name, "let": [("big", "amount > 0"), ("zz", '"NETFLIX"')], "match": x, "category": "BadCat", "tags": "badtag"})
             bad_rules.append({"name": f"UsesBig{n}", "match": "big", "category": "BigCat", "tags": "bg"})
             bad_rules.append({"name": f"UsesZz{n}", "match": "contains(zz)", "category": "ZzCat", "tags": "zt"})
+        elif pos == "let-chain":
+            # the failing binding comes first; the condition only uses a later, independent binding of the same rule
+            r = {"name": name, "match": 'contains("NETFLIX") and big and small', "category": "ChainCat", "tags": "ch",
+                 "let": ([] if remove else [("b", x)]) + [("big", "amount > 60"), ("small", "amount < 1000")]}
+            bad_rules.append(r)
         elif pos == "let-unused":
             r = {"name": name, "match": 'contains("NETFLIX") and amount > 60', "category": "LetCat", "tags": "lt"}
             if not remove:
@@ -338,5 +346,55 @@ def check_views(case):
     return {"evals": 2, "nontrivial": 1, "outcomes": ["view-excluded"], "violations": viol, "sample_repr": {"views": text}}
 
 
+# ------------------------------------------------------------------------------------------------ legacy CSV rule files
+CSV_BAD_ROWS = ["COSTCO (GAS,BadParen,Bad,B,t", "*STAR,BadStar,Bad,B,", "UBER[,BadBracket,Bad,B,", "(?P<n>x)(?P<n>y),BadGroup,Bad,B,", "NETFLIX\\,BadEscape,Bad,B,",
+                "contains(,BadExpr,Bad,B,", "field.nope == 1,NoField,Bad,B,t", "amount > \"x\",BadType,Bad,B,"]
+CSV_GOOD = ["NETFLIX,Netflix,Subs,Streaming,video", "UBER,Uber,Transport,Ride,", "COFFEE[amount<10],Coffee,Food,Cafe,small"]
+
+
+def csv_text(bad, placement, remove):
+    rows = list(CSV_GOOD)
+    if not remove:
+        rows.insert({"first": 0, "middle": 1, "last": len(rows)}[placement], CSV_BAD_ROWS[bad])
+    return "Pattern,Merchant,Category,Subcategory,Tags\n" + "\n".join(rows) + "\n"
+
+
+def run_csvrules(text):
+    path = R.write_scratch("merchant_categories.csv", text)
+    H.reset_state()
+    out = []
+    try:
+        rules, transforms = R.load_path(path)
+    except Exception as e:  # noqa
+        return {"EXCEPTION": f"loading: {type(e).__name__}: {str(e)[:120]}"}
+    for t in TXNS:
+        try:
+            out.append(strip(R.normalize_result(rules, transforms, t)))
+        except Exception as e:  # noqa
+            out.append({"EXCEPTION": f"{type(e).__name__}: {str(e)[:120]}"})
+    H.reset_state()
+    return out
+
+
+def check_csvrules(case):
+    full, red = run_csvrules(csv_text(case["bad"], case["placement"], False)), run_csvrules(csv_text(case["bad"], case["placement"], True))
+    viol, evals = [], 0
+    text = csv_text(case["bad"], case["placement"], False)
+    if isinstance(full, dict):
+        viol.append({"kind": "exception-escapes-classification", "detail": {"entry": "legacy CSV rules", "file": text, "exception": full["EXCEPTION"]}})
+    else:
+        for t, a, b in zip(TXNS, full, red):
+            evals += 1
+            if "EXCEPTION" in a:
+                viol.append({"kind": "exception-escapes-classification", "detail": {"entry": "legacy CSV rules", "file": text, "txn": t, "exception": a["EXCEPTION"]}})
+            elif a != b and a.get("category") != "Bad":
+                # a row that cannot be evaluated is skipped: every transaction gets what the file without that row gives
+                viol.append({"kind": "failing-element-changes-outcome", "detail": {"entry": "legacy CSV rules", "file": text, "txn": t, "with_failing_row": a, "without_it": b}})
+    return {"evals": evals, "nontrivial": 1, "outcomes": ["csv-row-skipped" if not viol else "csv-row-problem"], "violations": viol[:8],
+            "sample_repr": {"file": text}}
+
+
 def check_case(case):
+    if case.get("kind") == "csvrules":
+        return check_csvrules(case)
     return check_rules(case) if case["kind"] == "rules" else check_views(case)
